@@ -313,3 +313,19 @@ pub async fn sleep_ms(ms: u64) {
     tokio::time::sleep(std::time::Duration::from_millis(ms)).await;
     sync_clock();
 }
+
+
+/// Payload of a panic the simulation raises on purpose (a task that crashes
+/// while it holds something): the panic hook lets it pass.
+pub struct InjectedCrash;
+
+/// Drop `x` the way a crashing task does: during the unwinding of a panic
+/// (`std::thread::panicking()` is true in its `Drop`), the panic contained
+/// as a runtime's task boundary or a `catch_unwind` would contain it.
+pub fn crash_drop<T>(x: T) {
+    stat("fault.holder_crashed");
+    let _ = std::panic::catch_unwind(std::panic::AssertUnwindSafe(move || {
+        let _held = x;
+        std::panic::panic_any(InjectedCrash);
+    }));
+}
